@@ -78,6 +78,13 @@ PROPS = {
         "oracle": True,
         "tie": "hand-written model tied by A-collapse, A-wrap, A-justify, A-align, A-indent",
     },
+    "C11": {
+        "lean_modules": ["RosedVerif.Props.C11"],
+        "theorems": [],
+        "groups": ["A-para", "A-wrap", "A-justify", "A-align", "A-indent"],
+        "oracle": True,
+        "tie": "hand-written model (Model/Ops.lean applyGParagraphsOpts and the paragraph branches of Wrap/Justify/Align/Indent) tied by A-para and the layout groups",
+    },
     "C12": {
         "lean_modules": ["RosedVerif.Props.C12"],
         "theorems": [],
